@@ -5,7 +5,10 @@
 //! record: {s, e1, e2, e0, strip, pairs:[{m, kind, diff, rdiff, lc, sl}]}
 //! Real Schema values are built from the uniform schema nodes through the public constructors.
 use savefile::prelude::*;
-use savefile::{diff_schema, new_schema_deserializer, Field, SchemaArray, SchemaEnum, SchemaPrimitive, SchemaStruct, Variant, VecOrStringLayout};
+use savefile::{
+    diff_schema, new_schema_deserializer, AbiMethod, AbiMethodArgument, AbiMethodInfo, AbiTraitDefinition, Field, ReceiverType, SchemaArray,
+    SchemaEnum, SchemaPrimitive, SchemaStruct, Variant, VecOrStringLayout,
+};
 use serde_json::{json, Value};
 use std::io::{BufRead, BufWriter, Write};
 use std::panic::{catch_unwind, AssertUnwindSafe};
@@ -32,7 +35,41 @@ fn optu(v: &Value) -> Option<usize> {
     }
 }
 fn fields(ts: &Value) -> Vec<Field> {
-    ts.as_array().unwrap().iter().map(|f| unsafe { Field::unsafe_new("f".to_string(), Box::new(build(f)), optu(&f["off"])) }).collect()
+    ts.as_array()
+        .unwrap()
+        .iter()
+        .map(|f| unsafe { Field::unsafe_new(f["nm"].as_str().unwrap_or("").to_string(), Box::new(build(f)), optu(&f["off"])) })
+        .collect()
+}
+fn traitdef(d: &Value) -> AbiTraitDefinition {
+    let fl = d["n"].as_u64().unwrap();
+    AbiTraitDefinition {
+        name: d["s"].as_str().unwrap().to_string(),
+        methods: d["ts"]
+            .as_array()
+            .unwrap()
+            .iter()
+            .map(|m| {
+                let code = m["n"].as_u64().unwrap();
+                let ts = m["ts"].as_array().unwrap();
+                AbiMethod {
+                    name: m["s"].as_str().unwrap().to_string(),
+                    info: AbiMethodInfo {
+                        return_value: build(&ts[0]),
+                        receiver: match code % 4 {
+                            0 => ReceiverType::Shared,
+                            1 => ReceiverType::Mut,
+                            _ => ReceiverType::PinMut,
+                        },
+                        arguments: ts[1..].iter().map(|a| AbiMethodArgument { schema: build(a) }).collect(),
+                        async_trait_heuristic: code >= 4,
+                    },
+                }
+            })
+            .collect(),
+        sync: fl % 2 == 1,
+        send: fl >= 2,
+    }
 }
 pub fn build(n: &Value) -> Schema {
     let k = n["k"].as_str().unwrap();
@@ -88,6 +125,13 @@ pub fn build(n: &Value) -> Schema {
         "recursion" => Schema::Recursion(n["n"].as_u64().unwrap() as usize),
         "ioerror" => Schema::StdIoError,
         "utc" => Schema::UtcTimestamp,
+        "uninit" => Schema::UninitSlice,
+        "trait" => Schema::Trait(n["n"].as_u64().unwrap() == 1, traitdef(&n["ts"][0])),
+        "fnclosure" => Schema::FnClosure(n["n"].as_u64().unwrap() == 1, traitdef(&n["ts"][0])),
+        "future" => {
+            let m = n["n"].as_u64().unwrap();
+            Schema::Future(traitdef(&n["ts"][0]), m & 1 != 0, m & 2 != 0, m & 4 != 0)
+        }
         other => panic!("unknown schema kind {}", other),
     }
 }
@@ -136,7 +180,9 @@ fn replay(rec: &Value) -> Vec<Value> {
                 match de(&b, fv as u16) {
                     Ok((back, pos)) => {
                         if back != s || pos != b.len() {
-                            fail(&format!("c13.roundtrip{}", fv), format!("read back {:?} (consumed {}/{})", back, pos, b.len()));
+                            let expressible = fv == 1 && back == build(&rec["f1"]) && pos == b.len();
+                            fail(&format!("c13.roundtrip{}{}", fv, if expressible { ".not_expressible" } else { "" }),
+                                 format!("read back {:?} (consumed {}/{})", back, pos, b.len()));
                         }
                     }
                     Err(e) => fail(&format!("c13.roundtrip{}", fv), e),
@@ -146,8 +192,11 @@ fn replay(rec: &Value) -> Vec<Value> {
         }
         match de(&want, fv as u16) {
             Ok((back, pos)) => {
+                // (the property demands s itself; what format 1 can carry of it is rec.f1 -- the difference is a finding)
                 if back != s || pos != want.len() {
-                    fail(&format!("c13.dec{}", fv), format!("spec bytes decode to {:?} (consumed {}/{})", back, pos, want.len()));
+                    let expressible = fv == 1 && back == build(&rec["f1"]) && pos == want.len();
+                    fail(&format!("c13.dec{}{}", fv, if expressible { ".not_expressible" } else { "" }),
+                         format!("spec bytes decode to {:?} (consumed {}/{})", back, pos, want.len()));
                 }
             }
             Err(e) => fail(&format!("c13.dec{}", fv), e),
@@ -203,8 +252,58 @@ fn replay(rec: &Value) -> Vec<Value> {
     fails
 }
 
+/// C06 on schema sections: decode a (malformed) section with the real reader; the verdict is TLC's (SchemaMutTrace.tla)
+fn garbage(rec: &Value) -> Value {
+    let inp = bytes_of(&rec["inp"]);
+    let run = || -> Value {
+        let r = catch_unwind(AssertUnwindSafe(|| {
+            let mut cur = std::io::Cursor::new(&inp[..]);
+            let mut d = new_schema_deserializer(&mut cur, 2);
+            let s = Schema::deserialize(&mut d);
+            drop(d);
+            s.map(|s| (s, cur.position() as usize))
+        }));
+        match r {
+            Ok(Ok((s, pos))) => match ser(&s, 2) {
+                Ok(b) => json!({"real": "ok", "msg": "", "rpos": pos, "reser": b, "oom": false}),
+                Err(e) => json!({"real": "panic", "msg": format!("decoded schema cannot be written again: {}", e), "rpos": pos, "reser": [], "oom": false}),
+            },
+            Ok(Err(e)) => json!({"real": "err", "msg": format!("{}", e), "rpos": 0, "reser": [], "oom": false}),
+            Err(p) => {
+                let m = p.downcast_ref::<String>().cloned().or_else(|| p.downcast_ref::<&str>().map(|x| x.to_string())).unwrap_or_default();
+                let oom = m.contains("allocat") || m.contains("capacity overflow");
+                json!({"real": "panic", "msg": m, "rpos": 0, "reser": [], "oom": oom})
+            }
+        }
+    };
+    // sections the format rejects may declare absurd lengths: a forked child turns an allocation abort into an observation
+    if rec["ok"].as_bool().unwrap_or(false) {
+        run()
+    } else {
+        vcommon::in_child(run)
+    }
+}
+
 fn main() {
     let args: Vec<String> = std::env::args().collect();
+    if args.len() >= 4 && args[1] == "garbage" {
+        unsafe {
+            let lim = libc::rlimit { rlim_cur: 3 << 29, rlim_max: 3 << 29 };
+            libc::setrlimit(libc::RLIMIT_AS, &lim);
+        }
+        std::panic::set_hook(Box::new(|_| {}));
+        let input = std::fs::File::open(&args[2]).expect("records");
+        let mut out = BufWriter::new(std::fs::File::create(&args[3]).expect("out"));
+        for (i, line) in std::io::BufReader::new(input).lines().enumerate() {
+            let line = line.unwrap();
+            if line.trim().is_empty() {
+                continue;
+            }
+            let rec: Value = serde_json::from_str(&line).expect("json");
+            writeln!(out, "{}", json!({"i": i, "obs": garbage(&rec)})).unwrap();
+        }
+        return;
+    }
     if args.len() < 4 || args[1] != "replay" {
         eprintln!("usage: schema replay <records> <out>");
         std::process::exit(2);
